@@ -12,23 +12,23 @@ Proof. intros a b. unfold h3_eqb. destruct (h3_eq_dec a b); [auto|discriminate].
 
 Local Open Scope N_scope.
 Definition n_c3 (c : cst3) : N :=
-  match c with C3Conn => 0 | C3Send => 1 | C3Wait => 2
+  match c with C3Conn => 0 | C3Send => 1 | C3Wait => 2 | C3Stream => 11
              | C3Ret (CResp b) => 3 + n_bool b | C3Ret (CErr e) => 5 + n_err e end.
 Definition n_d3 (d : dial3) : N := match d with D3Ready => 0 | D3Running => 1 | D3Err => 2 end.
 Definition n_e3 (e : entry3) : N := match e with E3None => 0 | E3Dialing => 1 | E3Ready => 2 | E3Failed => 3 end.
 Definition n_bg (b : bg3) : N := match b with BgNone => 0 | BgRunning => 1 | BgDone => 2 end.
 Definition h3_code (s : h3) : positive :=
-  N.succ_pos (mix [(n_c3 (c3 s), 11); (n_d3 (d3 s), 3); (n_e3 (e3 s), 4); (n_ocause (ctx3 s), 4);
+  N.succ_pos (mix [(n_c3 (c3 s), 12); (n_d3 (d3 s), 3); (n_e3 (e3 s), 4); (n_ocause (ctx3 s), 4);
                    (n_bool (cg3 s), 2); (n_bool (scancel s), 2); (n_bg (bg s), 3);
-                   (n_bool (bclosed3 s), 2); (n_bres (pipe3 s), 12)]).
+                   (n_bool (bclosed3 s), 2); (n_bres (pipe3 s), 12); (n_bool (sblocked s), 2)]).
 Local Close Scope N_scope.
 
 Definition labels3 : list label3 :=
-  [ZConnReady; ZHdrSent; ZBodySent; ZResp true; ZResp false; ZData; ZEnd;
+  [ZConnReady; ZStreamLimit; ZStreamGranted; ZHdrSent; ZBodySent; ZResp true; ZResp false; ZData; ZEnd;
    ZCancel CCanceled; ZCancel CDeadline; ZCancel CTimeout] ++ internals3.
 
 Lemma labels3_all : forall l, In l labels3.
-Proof. intros l. unfold labels3, internals3. destruct l as [| | |[]| | |[]| | | | | | | | |]; cbn; tauto. Qed.
+Proof. intros l. unfold labels3, internals3. destruct l as [| | | | |[]| | |[]| | | | | | | | | | |]; cbn; tauto. Qed.
 
 Definition M3 (fx : bool) (c : cfg3) : smap h3 :=
   match explore h3 label3 (step3 fx c) h3_code h3_eqb labels3 400 (init3 c) with
@@ -38,7 +38,7 @@ Definition M3 (fx : bool) (c : cfg3) : smap h3 :=
 
 Lemma M3_closed : forall fx c,
   memM h3 h3_code h3_eqb (init3 c) (M3 fx c) && closedM h3 label3 (step3 fx c) h3_code h3_eqb labels3 (M3 fx c) = true.
-Proof. intros [] [[] []]; vm_compute; reflexivity. Qed.
+Proof. intros [] [[] [] []]; vm_compute; reflexivity. Qed.
 
 Lemma run3_run : forall fx c ls s, run3 fx c s ls = run h3 label3 (step3 fx c) s ls.
 Proof. intros fx c ls. induction ls as [|l r IH]; intros s; cbn; [reflexivity|]. destruct (step3 fx c s l); auto. Qed.
@@ -56,7 +56,7 @@ Lemma inv3 : forall fx (P : cfg3 -> h3 -> bool),
   (forall c, allM h3 (P c) (M3 fx c) = true) -> forall c s, reach3 fx c s -> P c s = true.
 Proof. intros fx P H c s R. eapply allM_sound; [apply H|apply reach3_in; exact R]. Qed.
 
-Ltac all_c3 := intros [[] []]; vm_compute; reflexivity.
+Ltac all_c3 := intros [[] [] []]; vm_compute; reflexivity.
 
 Definition enabled3 (c : cfg3) (s : h3) (l : label3) : bool :=
   match step3 true c s l with Some _ => true | None => false end.
@@ -138,7 +138,7 @@ Proof.
   split; [destruct (d3 s); congruence|].
   split; [intros B; rewrite B in H4; exact H4|].
   split; [exact H5|].
-  destruct (c3 s) as [| | |[b|e]]; try discriminate.
+  destruct (c3 s) as [| | | |[b|e]]; try discriminate.
   - right. exists b. split; [reflexivity|]. destruct (pipe3 s) as [| | | | | |e]; try discriminate.
     + right. right. split; [reflexivity|]. destruct b; [discriminate|reflexivity].
     + right. left. reflexivity.
@@ -146,23 +146,34 @@ Proof.
   - left. apply is_cause2_spec in H6 as [cs [X Y]]. exists e, cs. auto.
 Qed.
 
+(* waiting for a request stream under the peer's stream limit ends with the request's context, the
+   request is not sent, its body is closed *)
+Theorem h3_stream_wait_interruptible : forall c s cs,
+  c3 s = C3Stream -> ctx3 s = Some cs ->
+  exists s', step3 true c s LStreamCtx = Some s' /\ c3 s' = C3Ret (CErr (ECause cs)) /\
+             scancel s' = scancel s /\ (c3_body c = true -> bclosed3 s' = true).
+Proof.
+  intros c [a b d x g sc bgs bc p bl] cs H1 H2. cbn in *. subst. eexists. cbn. repeat split.
+  intros ->. apply orb_true_r.
+Qed.
+
 (* ---- the pinned code ---- *)
 
 (* a request cancelled during the dial leaves the failed dial in the cache: the next request fails *)
 Theorem h3_pinned_poisons_next_request :
-  exists s, run3 false (mkCfg3 false true) (init3 (mkCfg3 false true)) [ZCancel CCanceled; LWaitCtx; LDialCtx] = Some s /\
+  exists s, run3 false (mkCfg3 false true false) (init3 (mkCfg3 false true false)) [ZCancel CCanceled; LWaitCtx; LDialCtx] = Some s /\
             follow_ok false s = false /\ bclosed3 s = false /\ c3 s = C3Ret (CErr (ECause CCanceled)).
 Proof. eexists. vm_compute. repeat split. Qed.
 
 (* a pending body read fails with an error that is not the cause *)
 Theorem h3_pinned_body_error_not_cause :
-  exists s, run3 false (mkCfg3 true false) (init3 (mkCfg3 true false))
-              [LProceed; ZHdrSent; ZResp true; ZCancel CDeadline; LCancelG; LBodyFail] = Some s /\
+  exists s, run3 false (mkCfg3 true false false) (init3 (mkCfg3 true false false))
+              [LProceed; LStreamOpen; ZHdrSent; ZResp true; ZCancel CDeadline; LCancelG; LBodyFail] = Some s /\
             pipe3 s = BErr EOther.
 Proof. eexists. vm_compute. repeat split. Qed.
 
 Example h3_nonvacuous :
-  let c := mkCfg3 false true in
-  exists s, run3 true c (init3 c) [ZConnReady; LProceed; ZHdrSent; ZCancel CCanceled; LCancelG; LReadFail; LBgFail] = Some s /\
+  let c := mkCfg3 false true false in
+  exists s, run3 true c (init3 c) [ZConnReady; LProceed; LStreamOpen; ZHdrSent; ZCancel CCanceled; LCancelG; LReadFail; LBgFail] = Some s /\
             c3 s = C3Ret (CErr (ECause CCanceled)) /\ settled3 c s = true /\ scancel s = true /\ bclosed3 s = true.
 Proof. eexists. vm_compute. repeat split. Qed.
